@@ -64,8 +64,13 @@ def run_case(case) -> Result:
         if any(x is not None for x in fields.values()):
             n_read += 1
         for f, x in fields.items():
+            if x is not None and not isinstance(x, (bool, int, float)):
+                bad("reading-not-a-real-number", f or "reading", i, f"{x!r} ({type(x).__name__})")
+                break
             if is_num(x) and not _rounded(x, r):
                 bad("not-rounded-to-round_value", f or "reading", i, f"{x!r} has more than {r} decimals")
+        if viol:
+            break
         if v is None:
             continue
         if cls == "RSI":
